@@ -66,6 +66,8 @@ def createSpeculative : Nat → CellId → EM (Except String CellId)
                 | _ => let (a, h') := h.allocArr #[]; (.arr a, h')
               setHeap newObj.2
               writeCell newParent newObj.1
+              -- the cell that stood for the missing parent now refers to it too
+              writeCell spec.parent newObj.1
               return Except.ok newObj.1
           | _ => return Except.ok pv : EM (Except String Val))
         match objToSet with
